@@ -474,10 +474,11 @@ func (c *Conn) WaitPeerIdle(watchdog time.Duration) (idle bool, err error) {
 
 // Listener is a scripted net.Listener handing out server ends of pipes.
 type Listener struct {
-	mu     sync.Mutex
-	cond   *sync.Cond
-	queue  []acceptItem
-	closed bool
+	mu      sync.Mutex
+	cond    *sync.Cond
+	queue   []acceptItem
+	atClose []net.Conn
+	closed  bool
 	// CloseErr is returned by Close (first call).
 	CloseErr error
 	Accepts  int
@@ -520,6 +521,15 @@ func (l *Listener) Accept() (net.Conn, error) {
 	l.cond.Broadcast()
 	for {
 		if l.closed {
+			if len(l.atClose) > 0 {
+				// the connection that the pending Accept hands out at the very moment the
+				// listener is closed (an Accept that won the race against Close)
+				c := l.atClose[0]
+				l.atClose = l.atClose[1:]
+				l.Accepts++
+				l.cond.Broadcast()
+				return c, nil
+			}
 			return nil, net.ErrClosed
 		}
 		if len(l.queue) > 0 {
@@ -561,6 +571,21 @@ func (l *Listener) Close() error {
 	l.closed = true
 	l.cond.Broadcast()
 	return l.CloseErr
+}
+
+// PushAtClose queues a connection that the pending Accept returns at the moment Close is called:
+// the deterministic form of "Accept returned a connection just as the server was being closed".
+func (l *Listener) PushAtClose(c net.Conn) {
+	l.mu.Lock()
+	l.atClose = append(l.atClose, c)
+	l.mu.Unlock()
+}
+
+// AtClosePending reports how many PushAtClose connections have not been handed out yet.
+func (l *Listener) AtClosePending() int {
+	l.mu.Lock()
+	defer l.mu.Unlock()
+	return len(l.atClose)
 }
 
 func (l *Listener) IsClosed() bool {
